@@ -1,7 +1,7 @@
 """C14 Derived definitions are correct and unaliased; Context<->Definition are inverse.
 
 clause -> what is compared
-  union / intersection / | / &   result triple == R2 (cell-wise or/and; ValueError iff a shared cell
+  union / intersection / | / &   result triple == R2 (cell-wise or/and; an exception iff a shared cell
                                  differs and conflicts are not ignored; left names then new right
                                  names / left order restricted), for ALL ordered pairs of definitions
                                  of the universe x ignore_conflicts; operands unchanged
@@ -203,10 +203,11 @@ def run_derived(shard, tier):
                     res, err = None, e
                 if rejected:
                     ctr['hit_conflict_rejected'] += 1
-                    if not isinstance(err, ValueError):
+                    if err is None:
                         if len(V) < 6:
-                            V.append(common.violation(ID, 'conflict-raises-ValueError', info,
-                                                      'ValueError', repr(err) if err else 'returned'))
+                            V.append(common.violation(ID, 'conflict-raises', info,
+                                                      'an exception (conflicting shared cells)',
+                                                      'returned'))
                     elif explore.visible(a) != tm.triple(s) or explore.visible(b) != tm.triple(t):
                         V.append(common.violation(ID, 'operand-changed', info, None, None))
                     continue
